@@ -17,6 +17,7 @@ from an import (SliceInfo, ret_blocks, edge_fail_closed, where, true_edges_of_ca
 from env import engine, CTX, CIRC, find_owner
 from chan import PRIMS
 from common import fl
+from r6 import engine_bodies
 
 META = {
     "level": "other",
@@ -58,6 +59,7 @@ def run(ctx, res):
     check_pure(fg, cg, inv, res, val_o)
     check_position_index(fg, res)
     check_input_fields(fg, res)
+    check_circuit_slices(fg, res)
 
 
 def check_position_index(fg, res):
@@ -698,3 +700,51 @@ def check_pure(fg, cg, inv, res, val_o):
         res.bad("R10.pure", "validate|rng", "validate draws randomness", where(rnd[0][0], rnd[0][1]))
     else:
         res.ok("R10.pure", "validate", "", "no channel primitive / RNG reachable from validate (%d bodies)" % len(cl))
+
+
+def check_circuit_slices(fg, res):
+    """R10.slice: the vectors of the circuit description (`insts`, `input_regs`, `output_regs`) are never
+    range-sliced (`&circ.insts[..n]`) with a bound that is not taken from the vector's own length: the counters of
+    a circuit (sum of input_regs, and_ops, max_reg_count) are not tied to the number of instructions by
+    Circuit::validate, so a description whose counters disagree with its instructions panics on the slice bound."""
+    n = 0
+    bad = 0
+    for k, b in engine_bodies(fg):
+        if not b.owner.startswith("polytune::mpc::protocol::"):
+            continue
+        for bi, t in b.calls():
+            names = callee_names(t)
+            if not names or names[0].rsplit("::", 1)[-1] not in ("index", "index_mut") or len(t["args"]) != 2 or bi not in b.live_blocks():
+                continue
+            ix = t["args"][1]
+            ity = ix["p"]["ty"] if ix["k"] != "const" else ix.get("ty", "")
+            if not ity.startswith("core::ops::range::Range"):
+                continue
+            rv = t["args"][0]
+            if rv["k"] == "const":
+                continue
+            rty = rv["p"]["ty"]
+            if not ("register_circuit::Inst" in rty or "register_circuit::Reg" in rty or rty.lstrip("&").startswith("alloc::vec::Vec<usize") or rty.lstrip("&") == "[usize]"):
+                continue
+            si = SliceInfo(fg, fg.operand_nodes(k, rv))
+            cf = si.field_names(CIRC) & {"insts", "input_regs", "output_regs"}
+            if not cf:
+                continue
+            n += 1
+            bs = SliceInfo(fg, fg.operand_nodes(k, ix))
+            own_len = False
+            for (_b, _bi, t2) in bs.calls:
+                cn = callee_names(t2)
+                if cn and cn[-1].rsplit("::", 1)[-1] in ("len", "min") and t2["args"] and t2["args"][0]["k"] != "const":
+                    if SliceInfo(fg, fg.operand_nodes([kk for kk, bb in fg.bodies.items() if bb is _b][0], t2["args"][0])).field_names(CIRC) & cf:
+                        own_len = True
+            if own_len:
+                res.ok("R10.slice", "%s|%s[range]" % (b.owner.rsplit("::", 1)[-1], "/".join(sorted(cf))), where(b, bi), "range bound derived from the vector's own length")
+                continue
+            bad += 1
+            res.bad("R10.slice", "%s|%s[range]" % (b.owner.rsplit("::", 1)[-1], "/".join(sorted(cf))),
+                    "`circ.%s` is range-sliced with a bound computed from other counters of the circuit (%s): a circuit description whose counters disagree with its instructions (it passes Circuit::validate) panics here instead of returning Err" % ("/".join(sorted(cf)), sorted(bs.field_names(CTX) | bs.field_names(CIRC)) or "?"), where(b, bi),
+                    key="R10.slice|%s|%s" % (b.owner.rsplit("::", 1)[-1], "/".join(sorted(cf))))
+    res.count("range_slices_of_circuit_vectors", n)
+    if not bad:
+        res.ok("R10.slice", "engine", "", "%d range slices of circuit vectors, none with a foreign bound" % n)
